@@ -139,7 +139,7 @@ func (e *rcEnv) releaseFn(i int) {
 	n := vsched.CtrAdd(rcRel0+i, 1)
 	vsched.Observe(oRel, int64(i), n, 0)
 	if n > 1 {
-		fail("C08.released-twice", "release function of value %d called %d times", valOf(i), n)
+		fail("released-twice", "release function of value %d called %d times", valOf(i), n)
 		return
 	}
 	if e.onRelease != nil {
@@ -629,7 +629,7 @@ func init() {
 		},
 	})
 	eng.Register(&eng.Scenario{
-		Name: "refcount-drop-inflight", Props: []string{"C09", "C08"}, MustFinish: true, ObsNames: stdObs,
+		Name: "refcount-drop-inflight", Props: []string{"C09", "C08", "C10"}, MustFinish: true, ObsNames: stdObs,
 		Doc:   "RefCount (not keep-unreferenced): the only reference is dropped while the resolver call it started is still running (the call returns its value only after its context was cancelled, or after two more steps; choice); once quiet nothing is referenced: the late value is released and not kept; a reference added afterwards gets a value resolved by a new call, never the late result of the abandoned one",
 		Quick: eng.Bounds{PB: 2, Delay: true}, Thorough: eng.Bounds{PB: 3, Delay: true},
 		Body: func() {
